@@ -112,6 +112,7 @@ def shards(tier):
                 for i in range(len(SEGMENTS)) for j in range(len(SEGMENTS))]
         out += [{"tier": tier, "part": "dfs1", "first": i, "d": d, "n": n} for i in range(len(SEGMENTS))]
     out += [{"tier": tier, "part": "spell", "first": i} for i in range(len(SEGMENTS))]
+    get_docs(3)
     out.append({"tier": tier, "part": "numnames"})
     return out
 
@@ -239,6 +240,18 @@ def run_shard(desc):
                                 sh.violation(v)
                             else:
                                 sh.nontrivial += 1 if impl.jp.find(text, doc) else 0
+        # the bare root query: exactly the root node, whatever the document is
+        from mc.gen import docs as _gd
+        for doc in get_docs(3) + _gd.kinds() + NUM_DOCS:
+            for text in ("$", "$ ".strip()):
+                sh.states += 1
+                sh.transitions += 1
+                sh.traces += 1
+                sh.evaluations += 1
+                sh.nontrivial += 1
+                v = check_case({"query": text, "doc": impl.jsonable(doc)})
+                if v:
+                    sh.violation(v)
         sh.sample({"query": "$['0']", "doc": impl.jsonable(NUM_DOCS[1])}, limit=1)
     else:
         # spelling pass: every spelling of depth<=2 queries over trees with <= 3 nodes
